@@ -55,7 +55,7 @@ void run_C18(void) {
   const int th = G.thorough;
   for (size_t ni = 0; ni < N_ALL_N; ni++) {
     const uint64_t N = ALL_N[ni];
-    const unsigned batches = th ? (N <= 1024 ? 40 : (N <= 8192 ? 10 : 4)) : (N <= 1024 ? 3 : 1);
+    const unsigned batches = th ? (N <= 1024 ? 200 : (N <= 8192 ? 40 : 12)) : (N <= 1024 ? 6 : 2);
     for (unsigned b = 0; b < batches; b++)
       for (int native = 1; native >= 0; native--) batch_case(N, native, b, N <= 4096 ? 4 : 2);
   }
